@@ -19,9 +19,13 @@ open Nsq.Model
 section ToNsq
 open Nsq.Model.Split
 
-/-- **to_nsq publishes exactly the records.** For every byte string and every delimiter byte the
-records published — to each of the `n` destinations, in order — are exactly the non-empty
-delimiter-separated pieces of the input, byte for byte, *including an unterminated final record*. -/
+/-- **to_nsq publishes exactly the records — when every publish succeeds.** For every byte string and every
+delimiter byte the records published — to each of the `n` destinations, in order — are exactly the non-empty
+delimiter-separated pieces of the input, byte for byte, *including an unterminated final record*.
+`deliver` has the hypothesis **"every destination acknowledges every record"** built in (audit round 7, C14): the
+statement with that hypothesis explicit, its refutation without it, and what the fail-stop tool does at a refused
+record (exit status 1, nothing after it) are `Nsq.Props.C20Refuse.to_nsq_records_if_accepted`,
+`to_nsq_records_unconditional_false`, `to_nsq_published_until_refusal`. -/
 theorem to_nsq_records (d : UInt8) (input : Bytes) (n i : Nat) (hi : i < n) :
     received i (deliver n (published trimFixed d input)) = records d input := by
   rw [Nsq.Proofs.Split.received_deliver n i hi, Nsq.Proofs.Split.published_fixed]
@@ -38,7 +42,9 @@ theorem to_nsq_records_old_false : ¬ to_nsq_records_old := by
   revert this
   decide
 
-/-- … and holds exactly when the last record is terminated (or the input is empty). -/
+/-- … and holds when the last record is terminated (or the input is empty). (Only this direction is proved; the
+converse — an unterminated non-empty input is published wrongly by `trimOld` — is shown on the witness above and on
+2037 of 3006 generated inputs of the old tree, not as a theorem.) -/
 theorem to_nsq_records_old_partial (d : UInt8) (input : Bytes) (hterm : input = [] ∨ input.getLast? = some d) :
     published trimOld d input = records d input :=
   Nsq.Proofs.Split.published_old_terminated d input hterm
@@ -67,7 +73,15 @@ open Nsq.Model.Relay Nsq.Model.Relay.Http Nsq.Proofs.Relay.Http
 
 /-- **FIN only after accept (nsq_to_http).** If handling a message ends in `Finish`, then either
 sampling dropped it, or every request made was accepted by its destination (2xx for POST, 200 for
-GET), at least one request was made, and in mode *all* every configured address was asked. -/
+GET), in mode *all* every configured address was asked, and in the other modes one request was made.
+With **no address** (`naddr = 0`) mode *all* asks nobody and finishes (`example` below): "at least one request" needs
+`naddr ≠ 0` (`http_no_silent_drop`), which main() guarantees (`--get or --post required`:
+`Nsq.Props.C20Get.http_valid_start_has_address`).
+`resp a` is the status **the publisher sees**, i.e. what `http.Client.Do` returns: with a client that
+follows redirects that is the answer of the *last* request of a chain, which need not carry the body
+(audit round 7, C3). The wire-level statement — the request that carried the body was itself accepted —
+is `Nsq.Props.C20Redirect.http_fin_only_after_body_accepted` (client of fix F45); it is refuted for the
+client of the tree before the fix (`…_following_false`). -/
 theorem http_fin_only_after_accept (c : Cfg) (counter : Nat) (m : Msg) (so : Bool) (pick : Nat)
     (resp : Nat → Option Nat) (hfin : Out.fin m.id ∈ (step c counter m so pick resp).2) :
     (c.sampling = true ∧ so = true) ∨
@@ -159,7 +173,12 @@ theorem http_reject_implies_requeue (c : Cfg) (counter : Nat) (m : Msg) (so : Bo
       | true => rw [hacc] at hrej; simp at hrej
       | false => simp
 
-/-- **Body unmodified (nsq_to_http).** Every request carries the message body, byte for byte. -/
+/-- **Body handed to `Publish` unmodified (nsq_to_http).** In the model every `Out.request` carries `m.body`: the handler
+passes the message body, and nothing else, to `Publisher.Publish`. This holds *by construction of the model* (audit round 7,
+C23) — it states what `HandleMessage` passes on, not what goes over the wire. The wire-level statements are: POST — the
+request body is the message body (checked on every run by the harness oracle "arrived modified", not a theorem); GET — the
+request target is `template[%s := QueryEscape body]` and the destination recovers the body byte-exactly
+(`Nsq.Props.C20Get.get_endpoint_clean`, `get_escape_roundtrip`, tied on the real `GetPublisher`). -/
 theorem http_body_unmodified (c : Cfg) (counter : Nat) (m : Msg) (so : Bool) (pick : Nat)
     (resp : Nat → Option Nat) (a : Nat) (b : Bytes) (ok : Bool)
     (h : Out.request a b ok ∈ (step c counter m so pick resp).2) : b = m.body := by
@@ -201,33 +220,66 @@ theorem http_no_silent_drop (c : Cfg) (counter : Nat) (m : Msg) (so : Bool) (pic
     · exact ⟨0, h.2.1 hm 0 (Nat.pos_of_ne_zero hn)⟩
     · exact h.2.2 hm
 
-/-- **Eventual delivery (partial).** *Hypotheses (not proved here):* the source redelivers an
-unfinished message (C01) and the destination eventually accepts — i.e. among the attempts `ins` for
-message `m` there is one that is not sampled out and whose every request is accepted. Then the
-trace contains `Finish m`. (Fairness of redelivery and of the destination is assumed, not derived.) -/
+/-- one good attempt: not sampled out, every destination accepts — the handling is a non-empty block of accepted
+requests carrying the body (every address in mode *all*), followed by `Finish` -/
+theorem http_good_attempt (c : Cfg) (hn : c.naddr ≠ 0) (counter : Nat) (m : Msg) (so : Bool) (pick : Nat)
+    (resp : Nat → Option Nat) (hso : so = false) (hacc : ∀ a, accepts c.post (resp a) = true) :
+    ∃ reqs, (step c counter m so pick resp).2 = reqs ++ [Out.fin m.id] ∧
+      (∃ a, Out.request a m.body true ∈ reqs) ∧
+      (c.mode = .all → ∀ a < c.naddr, Out.request a m.body true ∈ reqs) := by
+  have hs : ¬(c.sampling = true ∧ so = true) := by rw [hso]; simp
+  cases hm : c.mode with
+  | all =>
+    have hok : (sendAll c.post m.body resp (List.range c.naddr)).2 = true :=
+      (sendAll_ok c.post m.body resp _).mpr (fun a _ => hacc a)
+    have hall := sendAll_all c.post m.body resp _ hok
+    refine ⟨(sendAll c.post m.body resp (List.range c.naddr)).1, ?_, ?_, ?_⟩
+    · rw [step_all c counter m so pick resp hs hm, hok]; simp
+    · exact ⟨0, hall 0 (List.mem_range.mpr (Nat.pos_of_ne_zero hn))⟩
+    · intro _ a ha; exact hall a (List.mem_range.mpr ha)
+  | roundRobin =>
+    refine ⟨[Out.request ((counter + 1) % c.naddr) m.body true], ?_, ⟨_, List.mem_singleton.mpr rfl⟩, fun h => by cases h⟩
+    rw [step_rr c counter m so pick resp hs hm hn, hacc]; simp
+  | hostPool =>
+    refine ⟨[Out.request pick m.body true], ?_, ⟨_, List.mem_singleton.mpr rfl⟩, fun h => by cases h⟩
+    rw [step_hp c counter m so pick resp hs hm, hacc]; simp
+
+/-- **Eventual delivery (partial).** *Hypotheses (not proved here):* the source redelivers an unfinished message
+(C01) and the destination eventually accepts — i.e. among the attempts `ins` for message `m` there is one that is not
+sampled out and whose every request is accepted; and at least one address is configured (`naddr ≠ 0`; guaranteed by
+main(), see `http_fin_only_after_accept`). Then the trace contains **an accepted request carrying the body** (one for every
+address in mode *all*) **followed by `Finish m`**. (Fairness of redelivery and of the destination is assumed, not
+derived. Audit round 7, C23: the earlier form concluded only the `Finish`.) -/
 theorem http_eventual_delivery_partial (c : Cfg) (hn : c.naddr ≠ 0) (m : Msg) (ins : List In) (counter : Nat)
     (hgood : ∃ i ∈ ins, i.m = m ∧ i.sampledOut = false ∧ ∀ a, accepts c.post (i.resp a) = true) :
-    Out.fin m.id ∈ run c counter ins := by
+    ∃ pre post, run c counter ins = pre ++ Out.fin m.id :: post ∧
+      (∃ a, Out.request a m.body true ∈ pre) ∧
+      (c.mode = .all → ∀ a < c.naddr, Out.request a m.body true ∈ pre) := by
   induction ins generalizing counter with
   | nil => obtain ⟨i, hi, _⟩ := hgood; cases hi
   | cons i is ih =>
-    unfold run
-    rw [List.mem_append]
     obtain ⟨j, hj, hjm, hjs, hja⟩ := hgood
     cases hj with
-    | tail _ hj => exact Or.inr (ih _ ⟨j, hj, hjm, hjs, hja⟩)
+    | tail _ hj =>
+      obtain ⟨pre, post, hrun, hreq, hall⟩ := ih (step c counter i.m i.sampledOut i.pick i.resp).1 ⟨j, hj, hjm, hjs, hja⟩
+      refine ⟨(step c counter i.m i.sampledOut i.pick i.resp).2 ++ pre, post, ?_, ?_, ?_⟩
+      · unfold run; rw [hrun]; simp
+      · obtain ⟨a, ha⟩ := hreq; exact ⟨a, List.mem_append_right _ ha⟩
+      · intro hm a ha; exact List.mem_append_right _ (hall hm a ha)
     | head =>
-      left
-      have hs : ¬(c.sampling = true ∧ i.sampledOut = true) := by rw [hjs]; simp
-      rw [hjm]
-      cases hm : c.mode with
-      | all =>
-        rw [step_all c counter m _ _ _ hs hm]
-        have hok : (sendAll c.post m.body i.resp (List.range c.naddr)).2 = true :=
-          (sendAll_ok c.post m.body i.resp _).mpr (fun a _ => hja a)
-        rw [hok]; simp
-      | roundRobin => rw [step_rr c counter m _ _ _ hs hm hn, hja]; simp
-      | hostPool => rw [step_hp c counter m _ _ _ hs hm, hja]; simp
+      obtain ⟨reqs, hstep, hreq, hall⟩ := http_good_attempt c hn counter m i.sampledOut i.pick i.resp hjs hja
+      refine ⟨reqs, run c (step c counter i.m i.sampledOut i.pick i.resp).1 is, ?_, hreq, hall⟩
+      have e : run c counter (i :: is) = (step c counter i.m i.sampledOut i.pick i.resp).2 ++
+          run c (step c counter i.m i.sampledOut i.pick i.resp).1 is := rfl
+      rw [e, hjm, hstep]
+      simp
+
+/-- the hypothesis `naddr ≠ 0` is needed: with no address, mode *all* finishes without any request -/
+example : run ⟨.all, 0, true, false⟩ 0 [⟨⟨7, [1]⟩, false, 0, fun _ => some 200⟩] = [Out.fin 7] := by decide
+/-- `http_eventual_delivery_partial` on a concrete trace: first attempt rejected, second accepted by both addresses -/
+example : run ⟨.all, 2, true, false⟩ 0
+      [⟨⟨7, [1]⟩, false, 0, fun _ => some 500⟩, ⟨⟨7, [1]⟩, false, 0, fun _ => some 200⟩] =
+    [Out.request 0 [1] false, Out.req 7, Out.request 0 [1] true, Out.request 1 [1] true, Out.fin 7] := by decide
 
 /-! ### the tool as shipped (handler behind go-nsq's `handlerLoop` with its `max_attempts` give-up) -/
 
